@@ -9,6 +9,7 @@ from engine import cfg as C
 from engine import facts
 from engine.dataflow import Summaries, decl_of
 from engine.facts import AnalysisBroken, render, strip
+from rules import common
 
 LEVEL = 'other'
 LOCK = {'pthread_mutex_lock', 'pthread_mutex_trylock', 'pthread_mutex_timedlock',
@@ -78,7 +79,7 @@ def run(ctx):
         cg = ctx.callgraph(variant, 'lib')
         summ = Summaries(cg)
         roots = [prog.require_func('execv'), prog.require_func('execve')]
-        reach = cg.reachable(roots)
+        reach = common.checked_reach(cg, prog) if roots else {}
         locks = {}
         for key, (f, _, _) in reach.items():
             for c in f.calls():
